@@ -616,4 +616,78 @@ theorem checkHistory_iff (ac : Bool) (h : List Cycle) (i : Nat) (outs : List Out
     checkHistory ac h i outs = none ↔ HistorySpec ac h outs :=
   ⟨checkHistory_sound ac h i outs hlen, checkHistory_complete ac h i outs⟩
 
+/-! ### cycles abandoned with `Clear` (fourth wave)
+
+`checkSegs` / `programStatementA` (what the drivers of C11 and C13 evaluate on a program in which
+some cycles are given up with `Clear` before `Finalise`) are the proved-sound `checkHistory` /
+`programStatement` when no cycle is abandoned: the extension demands nothing new of use cycles. -/
+
+/-- C11, "whatever earlier cycles did": on a history without abandoned cycles the segment checker
+    is the history checker -/
+theorem checkSegs_cycles (ac : Bool) (h : List Cycle) (i : Nat) (outs : List Out) :
+    checkSegs ac (h.map Seg.cyc) i outs = checkHistory ac h i outs := by
+  induction h generalizing i outs with
+  | nil => rfl
+  | cons cy rest ih =>
+    simp only [List.map_cons, checkSegs, checkHistory]
+    split <;> simp_all
+
+/-- the executable statement for programs with abandoned cycles coincides with `programStatement`
+    on programs without them -/
+theorem programStatementA_cycles (ac : Bool) (h : List Cycle) (ops : List Op) (outs : List Out) :
+    programStatementA ac (h.map Seg.cyc) ops outs = programStatement ac h ops outs := by
+  simp only [programStatementA, programStatement, historyStatement, checkSegs_cycles]
+
+/-- what the property demands of the outputs of a program made of use cycles and abandoned cycles -/
+def SegSpec (ac : Bool) : List Seg → List Out → Prop
+  | [], outs => outs = []
+  | .cyc cy :: rest, outs =>
+    ∃ ys outs', SortedPermOf ys cy.pushes ∧ outs = specCycle ac ys cy ++ outs' ∧ SegSpec ac rest outs'
+  | .dropped es :: rest, outs =>
+    ∃ outs', outs = ((List.range es.length).map (fun i => (⟨.ok, none, i + 1, i + 1⟩ : Out)) ++ [⟨.ok, none, 0, 0⟩]) ++ outs'
+      ∧ SegSpec ac rest outs'
+
+/-- **C11 for programs with abandoned cycles** ("whatever earlier cycles did"): for every chunk size
+    ≥ 1, AutoClear on or off and every well-formed sequence of use cycles and cycles abandoned with
+    `Clear` before `Finalise`, the model's outputs are, segment by segment, those of `specCycle`
+    for a sorted enumeration of that cycle's own pushes, resp. nil for every call of an abandoned
+    cycle with `Len`/`Pos` counting its pushes and 0/0 after its `Clear`. -/
+theorem segs_from_fresh {c : Nat} {ac : Bool} (hc : 1 ≤ c) :
+    ∀ (sg : List Seg) {s : State}, Fresh c ac 0 s → wellFormedSegs ac sg = true →
+      SegSpec ac sg (run s (sg.flatMap Seg.ops)).2 := by
+  intro sg
+  induction sg with
+  | nil => intro s _ _; simp [run, SegSpec]
+  | cons g rest ih =>
+    intro s hs hwf
+    cases g with
+    | cyc cy =>
+      obtain ⟨ys, hsp, hout, hclean, hclosed⟩ := cycle_spec (ac := ac) hc cy hs
+      have hops : (Seg.cyc cy :: rest).flatMap Seg.ops = cy.ops ++ rest.flatMap Seg.ops := by simp [Seg.ops]
+      rw [hops, run_append s _ _ hclean]
+      refine ⟨ys, _, hsp, by rw [hout], ?_⟩
+      cases rest with
+      | nil => simp [run, SegSpec]
+      | cons g2 rest2 =>
+        simp only [wellFormedSegs, Bool.and_eq_true] at hwf
+        exact ih (hclosed hwf.1) hwf.2
+    | dropped es =>
+      obtain ⟨hout, hfresh⟩ := abandoned_cycle_fresh (ac := ac) hc hs es
+      have hclean : Clean (run s (es.map Op.push ++ [Op.clear])).2 := by
+        rw [hout]; intro o ho
+        simp only [List.mem_append, List.mem_map, List.mem_singleton] at ho
+        rcases ho with ⟨i, _, rfl⟩ | rfl <;> simp
+      have hops : (Seg.dropped es :: rest).flatMap Seg.ops = (es.map Op.push ++ [Op.clear]) ++ rest.flatMap Seg.ops := by
+        simp [Seg.ops]
+      rw [hops, run_append s _ _ hclean]
+      refine ⟨_, by rw [hout], ?_⟩
+      cases rest with
+      | nil => simp [run, SegSpec]
+      | cons g2 rest2 =>
+        simp only [wellFormedSegs, Bool.and_eq_true] at hwf
+        exact ih hfresh hwf.2
+
+/-- non-vacuity: memory-only cycle, abandoned spilling cycle, drained cycle (the shape of C13-m7) -/
+example : wellFormedSegs true [.cyc ⟨[⟨2,0⟩], 2, true⟩, .dropped [⟨5,0⟩, ⟨3,0⟩, ⟨4,0⟩], .cyc ⟨[⟨7,0⟩], 2, false⟩] = true := by decide
+
 end Biogo.Properties.C11_checker
